@@ -54,6 +54,14 @@ class Project:
         for df, variants in world.rules.items():
             if df not in dofiles_absent:
                 self._write(df, script_text(variants[0], 0, df, gates=self.gates))
+        if any(c == "udovar" for vs in world.rules.values() for sp in vs for c, _ in sp.seq):
+            # scripts that play the user replacing a rule's script in mid-run copy the new text from here
+            vd = self.root / "variants"
+            vd.mkdir()
+            self.env["RV_VARIANTS"] = str(vd)
+            for df, variants in world.rules.items():
+                for k, sp in enumerate(variants):
+                    (vd / ("%s.%d" % (df, k))).write_text(script_text(sp, k, df, gates=self.gates))
         for name, text in getattr(world, "symlinks", {}).items():
             (self.p / name).parent.mkdir(parents=True, exist_ok=True)
             os.symlink(text, self.p / name)
